@@ -103,7 +103,14 @@ def decItem : Nat → Bytes → Option (Item × Bytes)
         match decItem fuel rest with
         | some (i, r) => some (.tag n i, r)
         | none => none
-      else some (.simple n, rest)
+      else
+        -- major type 7: null (0xf6) and undefined (0xf7) matter; a two-byte simple value below 32 is malformed;
+        -- everything else (false, true, floats, other simple values) is "some other item"
+        match b with
+        | 0xf6 :: _ => some (.simple 22, rest)
+        | 0xf7 :: _ => some (.simple 23, rest)
+        | 0xf8 :: _ => if n < 32 then none else some (.simple 0, rest)
+        | _ => some (.simple 0, rest)
 /-- `n` consecutive items -/
 def decItems : Nat → Nat → Bytes → Option (List Item × Bytes)
   | _, 0, b => some ([], b)
